@@ -58,10 +58,11 @@ m = {
    "add_only":True},
  "engines":[
    {"name":"sim_sched","path":"/verif/simsched","serves_properties":["C16"],"kind_free_text":"shuttle 0.9.3 runtime driven by the harness's own seeded Scheduler (uniform / sticky / PCT-like / replay), RefView oracle, workload+schedule minimiser"},
-   {"name":"sim_io","path":"/verif/sim","serves_properties":["C05","C12","C15"],"kind_free_text":"seeded simulator over the Read seam and stored bytes (SimDisk/SimTransport/SimReader) and single-client SourceView histories"},
+   {"name":"sim_io","path":"/verif/sim","serves_properties":["C05","C12","C15"],"kind_free_text":"seeded simulator over the Read seam and stored bytes (SimDisk/SimTransport/SimReader) and single-client SourceView histories; built twice (release, and profile devsim: library at opt-level 0 with debug assertions); for C05 also a CPU-time watchdog over document shapes at n and 4n"},
+   {"name":"sim_miri","path":"/verif/simmiri","serves_properties":["C16"],"kind_free_text":"the same client scenarios on real std::sync under Miri (seeded schedules, weak-memory emulation, data-race and UB detection), with late readers that do not synchronise with the indexing thread"},
  ],
  "checks":[],
- "notes":"Deterministic simulation with fault injection. One integer (VERIF_SEED, default 20261001) decides every run; exit 0 held / 1 VIOLATION / 2 harness error. Repairs of genuine defects are logged in KNOWN_FINDINGS.txt.",
+ "notes":"Deterministic simulation with fault injection. One integer (VERIF_SEED, default 20261001) decides every run; exit 0 held / 1 VIOLATION / 2 harness error. Repairs of genuine defects (nine fix: commits in /repo) and the genuine defects that were recorded instead of repaired (F11..F14, each with an explained signature and a replay file under /verif/findings) are listed in KNOWN_FINDINGS.txt; DESIGN.md sections 10-12 describe what was built, what was found and which seeded changes each check catches.",
  "not_applicable":[{"property_id":k,"reason":v} for k,v in na.items()],
 }
 for pid in order:
